@@ -5,6 +5,9 @@ package main
 //	logh shared SEED   several SimpleLoggers (same or different thresholds) created at different
 //	                   times over ONE shared *log.Logger; interleaved, strictly sequential emissions;
 //	                   one JSON line per scenario listing every step and the lines it produced
+//	logh writers G N CHUNK SEED   G goroutines x N records through ONE SimpleLogger (and ONE SlogLogger over a slog.TextHandler)
+//	                   into a writer that is NOT atomic per Write call: it delivers in CHUNK-byte pieces with a yield after each
+//	                   and counts Write calls that overlap in time (package log serialises Write on the wrapped log.Logger)
 //	logh hostile       argument matrix with values that are legal for `...any` but awkward to format:
 //	                   typed-nil pointers implementing error / fmt.Stringer, values whose Error() /
 //	                   String() panic, the nil interface, nil slices / maps -- in key, value and tail
@@ -20,6 +23,8 @@ import (
 	"log/slog"
 	"math/rand"
 	"os"
+	"regexp"
+	"runtime"
 	"strings"
 	"sync"
 	"sync/atomic"
@@ -396,5 +401,143 @@ func hostile() {
 			r.text.mu.Unlock()
 		}
 		_ = enc.Encode(o)
+	}
+}
+
+// ---------------------------------------------------------------------------- round 4: a writer that relies on serialised Write calls
+
+// fragileWriter is memory-safe (each piece is appended under a lock) but not atomic per Write call:
+// when two Write calls overlap in time their pieces interleave, as they would on a chunking pipe or a
+// bufio.Writer.  It counts the Write calls that started while another one was in progress.
+type fragileWriter struct {
+	mu       sync.Mutex
+	buf      []byte
+	chunk    int
+	inflight atomic.Int64
+	overlaps atomic.Int64
+	writes   atomic.Int64
+}
+
+func (w *fragileWriter) Write(p []byte) (int, error) {
+	w.writes.Add(1)
+	if w.inflight.Add(1) > 1 {
+		w.overlaps.Add(1)
+	}
+	defer w.inflight.Add(-1)
+	for i := 0; i < len(p); i += w.chunk {
+		j := i + w.chunk
+		if j > len(p) {
+			j = len(p)
+		}
+		w.mu.Lock()
+		w.buf = append(w.buf, p[i:j]...)
+		w.mu.Unlock()
+		runtime.Gosched()
+	}
+	return len(p), nil
+}
+
+type writersOut struct {
+	Kind         string `json:"kind"`
+	Logger       string `json:"logger"` // simple | slog-text
+	Goroutines   int    `json:"goroutines"`
+	PerGoroutine int    `json:"per_goroutine"`
+	Chunk        int    `json:"chunk"`
+	Seed         int64  `json:"seed"`
+	Expected     int    `json:"expected_lines"`
+	Lines        int    `json:"lines"`
+	Intact       int    `json:"intact"`  // lines that are exactly one logged record
+	Torn         int    `json:"torn"`    // lines that are not (spliced / cut / duplicated)
+	Missing      int    `json:"missing"` // logged records without a line of their own
+	FirstTorn    string `json:"first_torn,omitempty"`
+	FirstMissing string `json:"first_missing,omitempty"`
+	Writes       int64  `json:"write_calls"`
+	Overlaps     int64  `json:"overlapping_write_calls"`
+}
+
+var slogTime = regexp.MustCompile(`^time=\S+ `)
+
+func writers(g, n, chunk int, seed int64) {
+	names := []string{"TRACE", "DEBUG", "INFO", "WARN", "ERROR"}
+	slogLv := []slog.Level{-8, -4, 0, 4, 8}
+	for _, kind := range []string{"simple", "slog-text"} {
+		w := &fragileWriter{chunk: chunk}
+		var l logger.Logger
+		if kind == "simple" {
+			l = logger.NewSimpleLogger(log.New(w, "", 0), logger.LevelTrace)
+		} else {
+			l = logger.NewSlogLogger(context.Background(), slog.New(slog.NewTextHandler(w, &slog.HandlerOptions{Level: slog.Level(-8)})))
+		}
+		expected := map[string]int{}
+		var emu sync.Mutex
+		var wg sync.WaitGroup
+		start := make(chan struct{})
+		for i := 0; i < g; i++ {
+			wg.Add(1)
+			go func(id int) {
+				defer wg.Done()
+				r := rand.New(rand.NewSource(seed + int64(id)))
+				mine := make([]string, 0, n)
+				var ref bytes.Buffer
+				refLog := slog.New(slog.NewTextHandler(&ref, &slog.HandlerOptions{Level: slog.Level(-8)}))
+				<-start
+				for k := 0; k < n; k++ {
+					lvl := (id + r.Intn(5)) % 5
+					msg := fmt.Sprintf("record %d of goroutine %d at %s", k, id, names[lvl])
+					pad := strings.Repeat("x", r.Intn(40))
+					args := []any{"g", id, "k", k, "pad", pad, "tail"}
+					call(l, lvl, msg, args)
+					if kind == "simple" {
+						// the record's own label, the message, every key/value argument in order
+						mine = append(mine, fmt.Sprintf("%s msg=%s, g=%d, k=%d, pad=%s, tail", names[lvl], msg, id, k, pad))
+					} else {
+						// what the standard library's TextHandler writes for this record (time stripped)
+						ref.Reset()
+						refLog.Log(context.Background(), slogLv[lvl], msg, args...)
+						mine = append(mine, slogTime.ReplaceAllString(strings.TrimSuffix(ref.String(), "\n"), ""))
+					}
+				}
+				emu.Lock()
+				for _, e := range mine {
+					expected[e]++
+				}
+				emu.Unlock()
+			}(i)
+		}
+		close(start)
+		wg.Wait()
+		o := writersOut{Kind: "writers", Logger: kind, Goroutines: g, PerGoroutine: n, Chunk: chunk, Seed: seed, Expected: g * n,
+			Writes: w.writes.Load(), Overlaps: w.overlaps.Load()}
+		w.mu.Lock()
+		text := string(w.buf)
+		w.mu.Unlock()
+		for _, ln := range strings.Split(strings.TrimSuffix(text, "\n"), "\n") {
+			if ln == "" && text == "" {
+				continue
+			}
+			o.Lines++
+			key := ln
+			if kind != "simple" {
+				key = slogTime.ReplaceAllString(ln, "")
+			}
+			if expected[key] > 0 {
+				expected[key]--
+				o.Intact++
+			} else {
+				o.Torn++
+				if o.FirstTorn == "" {
+					o.FirstTorn = ln
+				}
+			}
+		}
+		for e, c := range expected {
+			if c > 0 {
+				o.Missing += c
+				if o.FirstMissing == "" || e < o.FirstMissing {
+					o.FirstMissing = e
+				}
+			}
+		}
+		_ = json.NewEncoder(os.Stdout).Encode(o)
 	}
 }
